@@ -6,7 +6,12 @@
 //	lookup <k> <typ> <name> <patterns>            -> <pattern> | none
 //	route <stanzaNS> <name> <patterns>            -> h=<pattern> | router | nop
 //	children <k> <typ> <patterns> <toks> <cons>   -> <pattern>=<toks read>/…
+//	direct <sep|eof> <k> <typ> <patterns> <toks> <cons> <errs> -> …|err=<failed calls>|w=<handler writes received>
+//	iqdirect <sep|eof> <typ> <patterns> <toks> <c> -> h=…@<payload>=<toks> | fallback@<to>/<from>/<id> | nothing | err
 //	register <patterns> <pattern> <nil>           -> ok | panic
+//
+// <typ> of children / direct / iqdirect is what the specification (specHdr) reads from the
+// stanza's own, i.e. unqualified, attributes; the model reads the start element itself.
 package c14
 
 import (
